@@ -40,6 +40,46 @@ theorem encode_verify_cannot_panic (strict : Bool) (attrs ct md : Bytes) (st : X
 theorem asn_count_total (c : List Chain.Blk) : ∃ n, Chain.asnCount c = some n ∧ n ≤ 4294967295 :=
   ⟨_, C03.asnCount_spec c, Nat.min_le_left _ _⟩
 
+/-- **ROA prefixes, ASPA providers, CRL entries (`…Iter::next` / `contains` unwrap).** These three
+capturing decoders run a counting pass that calls an item reader and an extra check, and later
+iterate the captured octets with the *same* item reader (the source anchors `roaIterUsesTake`,
+`aspaIterUsesTake`, `crlIterUsesTake` are re-read on every run).  For every item reader and every
+check: if the counting pass accepted, the iteration cannot fail, yields exactly as many items, and
+every item passed the check. -/
+theorem capture_iterate_parity {α : Type} (take : Bytes → Take α) (check : α → Bool) :
+    ∀ (fuel : Nat) (b : Bytes) (n k : Nat), capturePass take check fuel b n = some k →
+      ∃ items, iteratePass take fuel b = some items ∧ items.length + n = k ∧ ∀ a ∈ items, check a = true := by
+  intro fuel
+  induction fuel with
+  | zero =>
+    intro b n k h
+    simp only [capturePass] at h
+    split at h
+    · injection h with h; exact ⟨[], rfl, by simpa using h, by simp⟩
+    · cases h
+  | succ f ih =>
+    intro b n k h
+    rw [capturePass] at h
+    cases ht : take b with
+    | absent =>
+      simp only [ht] at h
+      split at h
+      · injection h with h; exact ⟨[], by rw [iteratePass, ht], by simpa using h, by simp⟩
+      · cases h
+    | bad => simp [ht] at h
+    | ok a rest =>
+      simp only [ht] at h
+      by_cases hc : check a = true
+      · simp only [hc, if_true] at h
+        obtain ⟨items, h1, h2, h3⟩ := ih rest (n + 1) k h
+        refine ⟨a :: items, by rw [iteratePass, ht]; simp only [h1]; rfl, by simp; omega, ?_⟩
+        intro x hx
+        rcases List.mem_cons.1 hx with e | e
+        · rw [e]; exact hc
+        · exact h3 x e
+      · simp [hc] at h
+
+
 /-- **Bounded consumption.** A value read by the TLV layer lies inside the input: header, content
 and rest partition it, so nested decoding works on strictly shorter inputs and terminates. -/
 theorem readTlv_partition (b : Bytes) (t : Nat) (c rest : Bytes) (h : readTlv b = some (t, c, rest)) :
